@@ -45,20 +45,23 @@ theorem countedmap_inj {α β} {f : α → β} (hf : ∀ a b, f a = f b → a = 
 theorem eventFields_injective (a b : EventData) (h : eventFields a = eventFields b) : a = b := by
   cases a; cases b; simp_all [eventFields]
 
+theorem optmap_eventFields_iff (a b : Option EventData) : a.map eventFields = b.map eventFields ↔ a = b :=
+  ⟨optmap_inj eventFields_injective, fun h => by rw [h]⟩
+
+/-- the proofs below do not depend on the position or number of the components of the generated tuples (a field
+    added to the source and to the model's record, or an optional field of the source that the model hashes as
+    absent – a constant component – leaves them valid) -/
 theorem stuFields_injective (a b : StuData) (h : stuFields a = stuFields b) : a = b := by
   cases a; cases b
-  simp only [stuFields, Prod.mk.injEq] at h
-  simp only [StuData.mk.injEq]
-  refine ⟨?_, ?_, ?_, ?_, ?_, ?_⟩ <;>
-    first
-      | exact h.1 | exact h.2.1 | exact h.2.2.1 | exact h.2.2.2.1
-      | exact optmap_inj eventFields_injective h.2.2.2.2.1
-      | exact optmap_inj eventFields_injective h.2.2.2.2.2
+  simp only [stuFields, Prod.mk.injEq, optmap_eventFields_iff] at h
+  simp_all
+
+theorem countedmap_stuFields_iff (a b : Counted StuData) : a.map stuFields = b.map stuFields ↔ a = b :=
+  ⟨countedmap_inj stuFields_injective, fun h => by rw [h]⟩
 
 theorem tripFields_injective (a b : TripData) (h : tripFields a = tripFields b) : a = b := by
   cases a; cases b
-  simp only [tripFields, Prod.mk.injEq] at h
-  have hs := countedmap_inj stuFields_injective h.2.2.2.2.2.2.2.2
+  simp only [tripFields, Prod.mk.injEq, countedmap_stuFields_iff] at h
   simp_all
 
 theorem vehicleIdFields_injective (a b : VehicleIdData) (h : vehicleIdFields a = vehicleIdFields b) : a = b := by
@@ -67,11 +70,15 @@ theorem vehicleIdFields_injective (a b : VehicleIdData) (h : vehicleIdFields a =
 theorem positionFields_injective (a b : PositionData) (h : positionFields a = positionFields b) : a = b := by
   cases a; cases b; simp_all [positionFields]
 
+theorem optmap_vehicleIdFields_iff (a b : Option VehicleIdData) : a.map vehicleIdFields = b.map vehicleIdFields ↔ a = b :=
+  ⟨optmap_inj vehicleIdFields_injective, fun h => by rw [h]⟩
+
+theorem optmap_positionFields_iff (a b : Option PositionData) : a.map positionFields = b.map positionFields ↔ a = b :=
+  ⟨optmap_inj positionFields_injective, fun h => by rw [h]⟩
+
 theorem vehicleFields_injective (a b : VehicleData) (h : vehicleFields a = vehicleFields b) : a = b := by
   cases a; cases b
-  simp only [vehicleFields, Prod.mk.injEq] at h
-  have h1 := optmap_inj vehicleIdFields_injective h.1
-  have h3 := optmap_inj positionFields_injective h.2.2.1
+  simp only [vehicleFields, Prod.mk.injEq, optmap_vehicleIdFields_iff, optmap_positionFields_iff] at h
   simp_all
 
 /-! ## every field is written unambiguously (prefix-injective encoders, by instance resolution) -/
